@@ -349,6 +349,7 @@ def run(tier, seed):
                     top = x["ast"]["k"]
                     case = {"form": form, "backend": be, "kind": x["kind"], "top": top, "src": src, "raised": isinstance(got[be], str),
                             "ops": sorted(ops_of(x["ast"])), "relerr": relerr(got[be], want, multi),
+                            "err_over_fscale": err_over_fscale(got[be], want, multi, ex),
                             "what": f"{src} under the {be} backend gives {short(got[be])}; the exact derivative is {short(want)} [{form}]"}
                     clusters.setdefault((form, be, case["raised"], tuple(case["ops"])), []).append(case)
             if not isinstance(got["numpy"], str) and not isinstance(got["torch"], str) and not cmp_nested(got["numpy"], got["torch"], TOL["torch"], multi):
@@ -452,6 +453,22 @@ def relerr(got, want, multi):
         return None
 
 
+def err_over_fscale(got, want, multi, ex):
+    """largest absolute error divided by (1 + |f(p)|): the noise of a finite difference taken in single precision scales with the
+    magnitude of the FUNCTION VALUE, not of the derivative"""
+    import numpy as np
+    if isinstance(got, str) or multi:
+        return None
+    try:
+        fvals = [abs(flt(v)) for comp in ex["d"] for c_ in comp for v in c_["val"]]
+        g, w = np.asarray(got, dtype=float).ravel(), np.asarray(want, dtype=float).ravel()
+        if g.size != w.size:
+            return None
+        return float(np.max(np.abs(g - w))) / (1.0 + max(fvals or [0.0]))
+    except Exception:   # noqa
+        return None
+
+
 def matcher(f, case):
     m = f.get("match", {})
     if "forms" in m and case["form"] not in m["forms"]:
@@ -465,6 +482,8 @@ def matcher(f, case):
     if "kinds" in m and case["kind"] not in m["kinds"]:
         return False
     if "max_relerr" in m and (case.get("relerr") is None or case["relerr"] > m["max_relerr"]):
+        return False
+    if "max_err_over_fscale" in m and (case.get("err_over_fscale") is None or case["err_over_fscale"] > m["max_err_over_fscale"]):
         return False
     return True
 
